@@ -159,6 +159,27 @@ func (x *Exec) callContract(fi *FuncInfo, con *Contract, recv *Val, args []Val, 
 	c := x.c
 	names := map[string]Val{}
 	sig := fi.Sig
+	// pointer-to-struct parameters passed as &local: the callee may update the pointee; its final value is a fresh
+	// struct constrained by the postconditions (where the parameter name denotes the final pointee and old(p.f) the
+	// entry value), written back to the caller's variable after the call
+	type ptrArg struct {
+		name   string
+		target ast.Expr
+		post   Val
+	}
+	var ptrArgs []ptrArg
+	if ce, ok := node.(*ast.CallExpr); ok {
+		for i := 0; i < sig.Params().Len() && i < len(ce.Args); i++ {
+			p := sig.Params().At(i)
+			if pt, isPtr := p.Type().Underlying().(*types.Pointer); isPtr {
+				if _, isStruct := pt.Elem().Underlying().(*types.Struct); isStruct {
+					if ue, ok := ce.Args[i].(*ast.UnaryExpr); ok && ue.Op == token.AND {
+						ptrArgs = append(ptrArgs, ptrArg{name: p.Name(), target: ue.X})
+					}
+				}
+			}
+		}
+	}
 	if recv != nil && fi.RecvName != "" {
 		names[fi.RecvName] = *recv
 	}
@@ -284,10 +305,22 @@ func (x *Exec) callContract(fi *FuncInfo, con *Contract, recv *Val, args []Val, 
 	if len(results) >= 1 {
 		names["result"] = results[0]
 	}
+	oldNames := map[string]Val{}
+	for i := range ptrArgs {
+		pa := &ptrArgs[i]
+		pre := names[pa.name]
+		oldNames[pa.name] = pre
+		pa.post = Val{T: c.freshConst("post_"+pa.name, c.sortOf(pre.Ty)), Ty: pre.Ty}
+		x.assumeWF(st, pa.post)
+		names[pa.name] = pa.post
+	}
 	// postconditions
-	penv := &Env{contract: true, names: names, pkg: fi.Pkg.Types, old: pre}
+	penv := &Env{contract: true, names: names, oldNames: oldNames, pkg: fi.Pkg.Types, old: pre}
 	x.c.inContract++
 	for _, e := range con.Ensures {
+		if strings.HasPrefix(e.Label, "local.") {
+			continue // stated over the callee's local variables: checked there, not exported
+		}
 		t := x.defaultType(x.eval(e.Expr, st, penv)).T
 		c.assume(st.pc, t)
 	}
@@ -299,6 +332,9 @@ func (x *Exec) callContract(fi *FuncInfo, con *Contract, recv *Val, args []Val, 
 	}
 	for _, sv := range seqs {
 		st.gh[sv.key] = x.seqConcat(sv.old, st.gh[sv.key])
+	}
+	for _, pa := range ptrArgs {
+		x.assign(pa.target, pa.post, st, x.codeEnv)
 	}
 	if con.Trusted {
 		why := con.TrustWhy
